@@ -9,6 +9,7 @@
  *   bat  <mode> <verify> <file> <batch_size> <proj>     batch reader, all batches
  *   meta <mode> <verify> <file>                         metadata dump
  *   foot <mode> <hex>                                   can these bytes be opened at all (footer location logic): OK | ERR
+ *   hex  <file>                                         the bytes of the file (for footer experiments on files carquet wrote)
  *
  *   mode   f = carquet_reader_open (stdio)   m = carquet_reader_open with use_mmap   b = carquet_reader_open_buffer
  *   file   w:<codec>:<coldefs>:<rowgroups>   written with carquet_writer (page_size = 1: every write_batch = one page)
@@ -557,6 +558,9 @@ int main(void) {
         } else if (!strcmp(h_tok[0], "meta") && h_ntok == 4) {
             if (ensure_file(h_tok[3], why, sizeof why) != 0) printf("ERR file %s\n", why);
             else run_meta(h_tok[1][0], atoi(h_tok[2]));
+        } else if (!strcmp(h_tok[0], "hex") && h_ntok == 2) {
+            if (ensure_file(h_tok[1], why, sizeof why) != 0) printf("ERR file %s\n", why);
+            else { printf("OK "); h_puthex(g_buf, g_buf_len); putchar('\n'); }
         } else if (!strcmp(h_tok[0], "foot") && h_ntok == 3) {
             size_t L = strlen(h_tok[2]);
             char* spec = malloc(L + 3);
